@@ -12,7 +12,7 @@ from vlib.ref import c12_paths as ref
 from vlib.ref.c12_paths import KINDS, PHASES, SITES, State, accepted, unaccepted, Broken
 
 STR_VALUES = ['d1', 'd2', 'f', 'd', '1', 'd1/d2', 'w1', 'a b', 'x', 'g', 'n', '/d2', '/']
-READ_SITES_ANY = ['contents_of', 'dir_contents_of', 'existing', 'exe']
+READ_SITES_ANY = ['contents_of', 'dir_contents_of', 'existing', 'exe', 'pgm_stdin']
 ABS_DIRS = ['{HOME}/cs', '{HOME}/hd2', '{HOME}/cs/inc', '{ROOT}/absarea', '{ROOT}/absarea/d1', '{HOME}/cs/inc/deep']
 
 
@@ -412,7 +412,7 @@ class Gen:
         i = len(self.ops)
         if form == 'append':
             r = self.expr_existing('file', self.phase, 'f', allow_abs=False,
-                                   pred=lambda k, e: k[0] == 'SB' and not k[1].endswith('x1')
+                                   pred=lambda k, e: k[0] == 'SB' and not ref.is_exe(k[1])
                                    and not k[1].startswith('result'))
             if r is None:
                 return
@@ -476,7 +476,7 @@ class Gen:
         typ = draw(st.sampled_from(['ts', 'ts', 'pg', 'fs']))
         site = ref.X_SITE[typ]
         want = {'ts': 'f', 'pg': 'f', 'fs': 'd'}[typ]
-        pred = (lambda k, e: k[1].endswith('x1')) if typ == 'pg' else None
+        pred = (lambda k, e: ref.is_exe(k[1])) if typ == 'pg' else None
         old_force = self.force
         cd_syms = [n for n in sorted(self.S.paths) if self.S.paths[n].kind == 'cd' and n not in self.tainted]
         forced_opt = None
@@ -521,12 +521,12 @@ class Gen:
             sites += ['exists', 'contents', 'dir-contents'] * 2
         site = draw(st.sampled_from(sites))
         want = {'contents_of': 'f', 'dir_contents_of': 'd', 'existing': 'any', 'exe': 'f', 'exists': 'any',
-                'contents': 'f', 'dir-contents': 'd'}[site]
+                'contents': 'f', 'dir-contents': 'd', 'pgm_stdin': 'f'}[site]
         pred = None
         if site == 'exe':
-            pred = lambda k, e: k[1].endswith('x1')
+            pred = lambda k, e: ref.is_exe(k[1])
         elif site in ('exists', 'contents'):
-            pred = lambda k, e: e[0] == 'd' or (not k[1].endswith('x1'))
+            pred = lambda k, e: e[0] == 'd' or (not ref.is_exe(k[1]))
         r = self.expr_existing(site, self.phase, want, pred)
         if r is None:
             return
@@ -550,17 +550,23 @@ class Gen:
             return False
 
     def gen_act(self):
+        """[act] (called with phase = setup, after the last instruction of [setup])"""
         draw = self.draw
-        k = draw(st.sampled_from(['plain', 'plain', 'exe', 'arg']))
+        k = draw(st.sampled_from(['plain', 'plain', 'exe', 'arg', 'cat']))
         act = {'k': 'plain'}
         if k == 'exe':
-            r = self.expr_existing('act_exe', 'act', 'f', pred=lambda k_, e: k_[1].endswith('x1'))
+            r = self.expr_existing('act_exe', 'act', 'f', pred=lambda k_, e: ref.is_exe(k_[1]))
             if r is not None:
                 act = {'k': 'exe', 'expr': r[0]}
         elif k == 'arg':
             r = self.expr_existing('existing', 'act', 'any')
             if r is not None:
                 act = {'k': 'arg', 'expr': r[0]}
+        elif k == 'cat':
+            # `stdin = -contents-of PATH` as the last instruction of [setup]; [act] copies stdin to stdout
+            r = self.expr_existing('stdin', 'setup', 'f')
+            if r is not None and self.try_emit({'k': 'read', 'ph': 'setup', 'site': 'stdin', 'expr': r[0]}):
+                act = {'k': 'cat'}
         self.S.apply_act(act)
         return act
 
@@ -568,7 +574,7 @@ class Gen:
     def site_for_phase(self, dest_bias=True):
         draw = self.draw
         sites = ['file', 'dir', 'copy_dst'] * (3 if dest_bias else 1) + ['copy_src', 'cd', 'contents_of', 'existing',
-                                                                          'exe']
+                                                                          'exe', 'pgm_stdin', 'dir_contents_of']
         if self.phase == 'assert':
             sites += ['exists', 'contents', 'dir-contents']
         return draw(st.sampled_from(sites))
@@ -620,34 +626,51 @@ class Gen:
                 if not bad:
                     return None
                 k = draw(st.sampled_from(bad))
-                depth = draw(st.sampled_from([1, 1, 2, 2, 3]))
+                depth = draw(st.sampled_from([1, 1, 2, 2, 3, 3, 4]))
                 # first link
                 self.n_path += 1
                 sym = 'P%d' % self.n_path
                 inc = draw(st.sampled_from([0, 1, 2]))
                 if k == 'abs':
-                    e = {'rel': None, 'lead': None, 'name': [['l', draw(st.sampled_from(ABS_DIRS))]], 'q': 0}
+                    e = {'rel': None, 'lead': None, 'name': [['l', draw(st.sampled_from(ABS_DIRS[:4]))]], 'q': 0}
                 elif k == 'here':
-                    e = {'rel': 'here', 'lead': None, 'name': [['l', draw(st.sampled_from(['d1', '.']))]], 'q': 0}
+                    e = {'rel': 'here', 'lead': None, 'name': [['l', '.']], 'q': 0}
                 else:
-                    e = {'rel': k, 'lead': None, 'name': [['l', draw(st.sampled_from(['d1', '.', 'd1/d2']))]],
-                         'q': 0}
+                    e = {'rel': k, 'lead': None, 'name': [['l', '.']], 'q': 0}
                 self.emit({'k': 'def', 'ph': ph, 'name': sym, 'expr': e, 'inc': inc})
+                # the chain walks d1, d2 of the fixture tree (every root holds it), so that the path that is finally
+                # used names something that exists: a reading argument that accepted it would have to resolve it
+                pos = 0
                 for _ in range(depth - 1):
                     link = draw(st.sampled_from(['rel', 'lead', 'plain']))
                     self.n_path += 1
                     nsym = 'P%d' % self.n_path
-                    comp = draw(st.sampled_from(['d1', 'd2', 'z']))
+                    if link != 'plain' and pos < 2:
+                        comp = COMPS[pos]
+                        pos += 1
+                    elif link != 'plain':
+                        comp = '../d2'
                     if link == 'rel':
-                        e = {'rel': 'sym:' + sym, 'lead': None, 'name': [['l', comp]], 'q': 0}
+                        e = {'rel': 'sym:' + sym, 'lead': None, 'name': _fragmentize(draw, comp, S), 'q': 0}
                     elif link == 'lead':
                         e = {'rel': None, 'lead': sym, 'name': [['l', '/' + comp]], 'q': 0}
                     else:
                         e = {'rel': None, 'lead': sym, 'name': [], 'q': 0}
                     self.emit({'k': 'def', 'ph': ph, 'name': nsym, 'expr': e, 'inc': draw(st.sampled_from([0, 0, 1, 2]))})
                     sym = nsym
-                name = _leaf_for(site, n0)
-                form = draw(st.sampled_from(['rel', 'lead', 'plain']))
+                if SITES[site]['dest']:
+                    name = 'n%d' % n0
+                else:
+                    name, _ = _leaf(READ_WANT.get(site, 'f'), pos, draw(st.booleans()))
+                    if site == 'copy_src' and not name:
+                        name = '../d2'
+                form = draw(st.sampled_from(['rel', 'lead', 'plain'])) if name else 'plain'
+                if form == 'plain' and name:
+                    self.n_path += 1
+                    nsym = 'P%d' % self.n_path
+                    self.emit({'k': 'def', 'ph': ph, 'name': nsym, 'inc': 0,
+                               'expr': {'rel': 'sym:' + sym, 'lead': None, 'name': [['l', name]], 'q': 0}})
+                    sym = nsym
                 if form == 'rel':
                     expr = {'rel': 'sym:' + sym, 'lead': None, 'name': _fragmentize(draw, name, S), 'q': 0}
                 elif form == 'lead':
@@ -669,10 +692,10 @@ class Gen:
                 if dest:
                     ents = [e for e in self.existing_under(base, 'd')]
                 else:
-                    want = {'cd': 'd', 'dir-contents': 'd', 'exe': 'f', 'contents_of': 'f', 'contents': 'f'}.get(
-                        site, 'any')
-                    pred = (lambda k_, e: k_[1].endswith('x1')) if site == 'exe' else (
-                        lambda k_, e: not k_[1].endswith('x1'))
+                    want = {'cd': 'd', 'dir-contents': 'd', 'exe': 'f', 'contents_of': 'f', 'contents': 'f',
+                            'pgm_stdin': 'f', 'dir_contents_of': 'd'}.get(site, 'any')
+                    pred = (lambda k_, e: ref.is_exe(k_[1])) if site == 'exe' else (
+                        lambda k_, e: not ref.is_exe(k_[1]))
                     ents = [e for e in self.existing_under(base, want, pred) if e[0]]
                 if not ents:
                     return None
@@ -727,7 +750,14 @@ class Gen:
         return None
 
     def emit_irregular(self, op):
-        # the model state after an irregular use is not used any more: do not apply
+        # the model state after an irregular use is not used any more: the instruction is applied to a copy, only
+        # to learn whether it is inside the modelled domain (Broken aborts the irregular group)
+        import copy as _copy
+        probe = _copy.deepcopy(self.S)
+        try:
+            probe.apply(len(self.ops), op)
+        except ref.Reject:
+            pass
         self.ops.append(op)
 
     def irregular_abs_rel(self):
@@ -750,11 +780,13 @@ class Gen:
                 want = 'x1'
         leaf = ('n%d' % n0) if dest else want
         # how the relativity is given
-        rels = [k for k in KINDS if acc.get(k) is True]
+        rels = [k for k in KINDS if acc.get(k) in (True, 'maybe') and not (k == 'result' and acc.get(k) == 'maybe')]
         syms = [n for n in sorted(S.paths) if acc.get(S.paths[n].kind) is True and n not in self.tainted]
         if site == 'def':
             rels = rels + ['here']
         choices = [('opt', k) for k in rels] + [('sym', n) for n in syms]
+        if not choices:
+            return None
         how, which = draw(st.sampled_from(choices))
         rel = which if how == 'opt' else 'sym:' + which
         split = draw(st.sampled_from(['whole', 'whole', 'dir']))  # absolute name of the leaf, or of its directory
@@ -821,114 +853,258 @@ def cases(draw, tier='quick', irregular_rate=3):
         elif act is None:
             g.phase = 'setup'
         label = g.irregular()
+    if act is None and not want_irregular:
+        g.phase = 'setup'
+        act = g.gen_act()
     if act is None:
         act = {'k': 'plain'}
     return {'conf': conf, 'act': act, 'ops': g.ops, 'irr': label}
 
 
-# ---- enumerated destination matrix -----------------------------------------------------------------------------
+# ---- enumerated matrices ---------------------------------------------------------------------------------------
+# A matrix case = a chain of path-symbol definitions over one base relativity + one use of the last symbol.
+#   base   P1 = -rel-K . | <absolute dir> | -rel-here .          (K: every relativity option)
+#   links  P(j+1) = -rel Pj COMP | @[Pj]@/COMP | @[Pj]@           ('rel' | 'lead' | 'plain'), COMP walks d1, d2 of the
+#          fixture tree (then ../d2, so that a link stays what it is when the tree is exhausted)
+#   use    -rel Pn LEAF | @[Pn]@/LEAF | @[Pu]@ (Pu = Pn + LEAF: one more definition) | @[S]@/LEAF with
+#          def string S = @[Pn]@  (the path symbol routed through a string symbol)
+#   shapes of COMP and LEAF (rotated by the case number): plain, ./X, whole name from a string symbol, inner string
+#          symbol, X/../X, //, string symbol defined via another string symbol; LEAF plain or nested
 LINKS = ['rel', 'lead', 'plain']
+USES = ['rel', 'lead', 'plain', 'str']
+COMPS = ['d1', 'd2']
+FILE_AT = ['f1', 'f2', 'f3']
+EXE_AT = ['x1', 'x2', 'x3']
+MATRIX_ABS = ['{HOME}/cs', '{ROOT}/absarea', '{HOME}/hd2', '{HOME}/cs/inc/deep']
+N_SHAPES = 7
+
+
+class _Build:
+    def __init__(self, n, def_ph):
+        self.n, self.def_ph = n, def_ph
+        self.ops = []
+        self.n_str = self.n_path = 0
+
+    def newstr(self, val, **kw):
+        self.n_str += 1
+        name = 'S%d' % self.n_str
+        op = {'k': 'defstr', 'ph': self.def_ph, 'name': name, 'val': val}
+        op.update(kw)
+        self.ops.append(op)
+        return name
+
+    def newpath(self, expr, inc=0):
+        self.n_path += 1
+        name = 'P%d' % self.n_path
+        self.ops.append({'k': 'def', 'ph': self.def_ph, 'name': name, 'expr': expr, 'inc': inc})
+        return name
+
+    def frags(self, name, shape, first_is_dir):
+        """fragments of a FILE-NAME that denotes the same entry as the relative name `name`"""
+        shape %= N_SHAPES
+        if name.startswith('..'):
+            return [['l', name]]
+        if shape == 1:
+            return [['l', './' + name]]
+        if shape == 2:
+            return [['s', self.newstr(name)]]
+        if shape == 3 and len(name) > 1:
+            return [['l', name[:1]], ['s', self.newstr(name[1:])]]
+        if shape == 4 and first_is_dir:
+            return [['l', name.split('/')[0] + '/../' + name]]
+        if shape == 5 and '/' in name:
+            return [['l', name.replace('/', '//', 1)]]
+        if shape == 6 and len(name) > 1:
+            return [['s', self.newstr(name[1:], sref=self.newstr(name[:1]))]]
+        return [['l', name]]
+
+    def expr(self, sym, form, name, shape, first_is_dir, q=0):
+        """`name` below the path symbol `sym`, written as -rel SYM NAME ('rel') or @[SYM]@/NAME ('lead')"""
+        if form == 'rel':
+            return {'rel': 'sym:' + sym, 'lead': None, 'name': self.frags(name or '.', shape, first_is_dir), 'q': q}
+        if not name:
+            return {'rel': None, 'lead': sym, 'name': [], 'q': q}
+        fr = self.frags(name, shape, first_is_dir)
+        if fr[0][0] == 'l':
+            fr[0][1] = '/' + fr[0][1]
+        else:
+            fr.insert(0, ['l', '/'])
+        return {'rel': None, 'lead': sym, 'name': fr, 'q': q}
+
+    def chain(self, k, links):
+        """-> (name of the last symbol, number of fixture levels below the base it points to)"""
+        n = self.n
+        if k.startswith('b:'):
+            sym = k[2:]
+        else:
+            if k == 'abs':
+                e = {'rel': None, 'lead': None, 'name': [['l', MATRIX_ABS[n % 4]]], 'q': 0}
+            else:
+                e = {'rel': k, 'lead': None, 'name': [['l', '.']], 'q': 0}
+            sym = self.newpath(e, inc=[1, 0, 2, 0, 0, 0][n % 6])
+        pos = 0
+        for j, link in enumerate(links):
+            if link == 'plain':
+                e = {'rel': None, 'lead': sym, 'name': [], 'q': 0}
+            elif pos < len(COMPS):
+                e = self.expr(sym, link, COMPS[pos], n // 2 + 3 * j, True)
+                pos += 1
+            else:
+                e = self.expr(sym, link, '../' + COMPS[-1], 0, False)
+            # (definitions in included files: every second chain has one link in a nested include)
+            sym = self.newpath(e, inc=[0, 0, 0, 2, 0, 1][(n + j) % 6])
+        return sym, pos
+
+    def use(self, sym, pos, use, leaf, leaf_is_dir, shape):
+        """-> expr that names LEAF (a relative name; '' = the symbol itself) below the symbol"""
+        first_is_dir = leaf_is_dir or '/' in leaf
+        if use in ('rel', 'lead'):
+            return self.expr(sym, use, leaf, shape, first_is_dir, q=self.n % 2 if use == 'lead' else 0)
+        if use == 'plain':
+            if leaf:
+                sym = self.newpath(self.expr(sym, ['rel', 'lead'][self.n % 2], leaf, shape, first_is_dir))
+            return {'rel': None, 'lead': sym, 'name': [], 'q': (self.n // 2) % 2}  # @[P]@ | "@[P]@"
+        # 'str': def string S = "@[SYM]@" ; @[S]@/LEAF
+        s = self.newstr('', pref=sym)
+        fr = [['s', s]]
+        if leaf:
+            fr.append(['l', '/' + leaf])
+        return {'rel': None, 'lead': None, 'name': fr, 'q': self.n % 2}
+
+
+def _leaf(want, pos, nested, fresh='n0'):
+    """-> (relative name, is a directory) of an entry of the fixture tree `pos` levels down that has the wanted type
+    ('f' file, 'x' executable, 'd' directory, 'new' something that does not exist)"""
+    if want == 'd':
+        if pos >= 2:
+            return '', True
+        return ('d1/d2' if (nested and pos == 0) else COMPS[pos]), True
+    table = {'f': FILE_AT, 'x': EXE_AT}
+    if want == 'new':
+        if nested and pos < 2:
+            return COMPS[pos] + '/' + fresh, False
+        return fresh, False
+    if nested and pos < 2:
+        return COMPS[pos] + '/' + table[want][pos + 1], False
+    return table[want][pos], False
+
+
+THINNING = {'quick': {1: 1, 2: 2, 3: 12}, 'thorough': {1: 1, 2: 1, 3: 1, 4: 3}}  # depth -> keep one cell in N
+
+
+def _hows(tier, n0):
+    """chain cells: (base relativity, links, use) up to the depth bound of the tier (deep chains thinned out, the
+    selection rotates with the position in the matrix)"""
+    import itertools
+    i = n0
+    for k in KINDS + ['abs', 'here']:
+        for depth, keep in sorted(THINNING[tier].items()):
+            for links in itertools.product(LINKS, repeat=depth - 1):
+                for use in USES:
+                    i += 1
+                    if use == 'str' and k == 'cd':
+                        continue  # (the value of a string over a -rel-cd path depends on when it is evaluated)
+                    if (i + i // 4) % keep:
+                        continue
+                    yield k, list(links), use
+    # the builtin path symbols as base (no definition of the base: depth counts the definitions after it)
+    for name in sorted(ref.BUILTINS):
+        for depth in (0, 1):
+            for links in itertools.product(LINKS, repeat=depth):
+                for use in USES:
+                    i += 1
+                    if tier == 'quick' and (i + i // 4) % (6 if depth else 2):
+                        continue
+                    yield 'b:' + name, list(links), use
+
+
+def _conf(n):
+    return {'home': n % 3, 'act_home': (n // 3) % 3, 'inv': (n // 5) % 3, 'cinc': (n // 7) % 2}
+
+
+DEST_FORMS = ['file:new', 'file:empty', 'file:append', 'dir:new', 'dir:with', 'dir:add', 'copy_dst']
 
 
 def dest_matrix(tier):
-    """every destination site x phase x (explicit option | symbol chain over every base relativity, every
-    combination of link kinds up to the depth bound) -> case"""
-    import itertools
-    max_depth = 2 if tier == 'quick' else 4
-    bases = KINDS + ['abs', 'here']
-    forms = ['file:new', 'file:append', 'dir:new', 'dir:add', 'copy_dst']
+    """every destination form (creating and modifying) x phase x (explicit option | symbol chain over every base
+    relativity, every combination of link kinds up to the depth bound, every way of using the last symbol)"""
     n = 0
-    for form in forms:
+    for form in DEST_FORMS:
+        if tier == 'quick' and form in ('file:empty', 'dir:with'):
+            continue
         for ph in PHASES:
-            # explicit options
-            for k in KINDS + ['here']:
+            for k in [None] + KINDS + ['here']:  # None: the default relativity of the argument
                 yield _dest_case(form, ph, ('opt', k), n)
                 n += 1
-            for k in bases:
-                for depth in range(1, max_depth + 1):
-                    for links in itertools.product(LINKS, repeat=depth - 1):
-                        for use in ('rel', 'lead'):
-                            if tier != 'quick' and depth == 4 and (n % 3):
-                                n += 1
-                                continue
-                            yield _dest_case(form, ph, ('chain', k, list(links), use), n)
-                            n += 1
+            if form == 'copy_dst':
+                for k in KINDS:
+                    yield _dest_case(form, ph, ('optonly', k), n)  # DESTINATION = RELATIVITY without FILE-NAME
+                    n += 1
+            for k, links, use in _hows(tier, n):
+                yield _dest_case(form, ph, ('chain', k, links, use), n)
+                n += 1
 
 
 def _dest_case(form, ph, how, n):
-    ops = []
-    site = form.split(':')[0]
+    site, sub = (form.split(':') + [None])[:2]
     existing = form in ('file:append', 'dir:add')
-    leaf = {'file:new': 'n0', 'file:append': 'f1', 'dir:new': 'n0', 'dir:add': 'd1', 'copy_dst': 'n0'}[form]
-    if how[0] == 'opt':
-        expr = {'rel': how[1], 'lead': None, 'name': [['l', leaf]], 'q': 0}
+    b = _Build(n, 'setup' if n % 2 else ph)
+    want = {'file:append': 'f', 'dir:add': 'd'}.get(form, 'new')
+    nested = (n // 3) % 2 == 1 and form not in ('file:new', 'file:empty')  # (file does not make directories)
+    nested_new = (n // 3) % 2 == 1
+    src_leaf = 'f1'
+    if how[0] in ('opt', 'optonly'):
+        leaf, is_dir = _leaf(want, 0, nested_new if want == 'new' else nested)
+        if how[0] == 'optonly':
+            expr = {'rel': how[1], 'lead': None, 'name': [], 'q': 0}
+            src_leaf = 'g1'  # (exists in the home directories only: free in every directory of the sandbox)
+        else:
+            expr = {'rel': how[1], 'lead': None, 'name': b.frags(leaf, n, is_dir or '/' in leaf), 'q': n % 3}
+            if any(t == 's' for t, _ in expr['name']) and expr['q'] == 2:
+                expr['q'] = 0
     else:
         _, k, links, use = how
-        def_ph = 'setup' if n % 2 else ph
-        if k == 'abs':
-            e = {'rel': None, 'lead': None, 'name': [['l', ['{HOME}/cs', '{ROOT}/absarea', '{HOME}/hd2'][n % 3]]],
-                 'q': 0}
-        elif k == 'here':
-            e = {'rel': 'here', 'lead': None, 'name': [['l', '.']], 'q': 0}
-        else:
-            e = {'rel': k, 'lead': None, 'name': [['l', '.']], 'q': 0}
-        ops.append({'k': 'def', 'ph': def_ph, 'name': 'P1', 'expr': e, 'inc': [1, 0, 2, 0, 0, 0][n % 6]})
-        sym = 'P1'
-        # the chain walks d1 / d2 where it adds components, so that existing targets exist below it
-        comps = ['d1', 'd2']
-        used = 0
-        for j, link in enumerate(links):
-            nsym = 'P%d' % (j + 2)
-            if link == 'plain' or used >= len(comps):
-                e = {'rel': None, 'lead': sym, 'name': [], 'q': 0}
-            elif link == 'rel':
-                e = {'rel': 'sym:' + sym, 'lead': None, 'name': [['l', comps[used]]], 'q': 0}
-                used += 1
-            else:
-                e = {'rel': None, 'lead': sym, 'name': [['l', '/' + comps[used]]], 'q': 0}
-                used += 1
-            ops.append({'k': 'def', 'ph': def_ph, 'name': nsym, 'expr': e, 'inc': False})
-            sym = nsym
-        if existing:
-            leaf = {0: {'file:append': 'f1', 'dir:add': 'd1'}, 1: {'file:append': 'f2', 'dir:add': 'd2'},
-                    2: {'file:append': 'f3', 'dir:add': None}}[used][form]
-        if leaf is None:
-            leaf = ''
-        if use == 'rel':
-            expr = {'rel': 'sym:' + sym, 'lead': None, 'name': [['l', leaf or '.']], 'q': 0}
-        else:
-            expr = {'rel': None, 'lead': sym, 'name': [['l', '/' + leaf]] if leaf else [], 'q': 0}
+        sym, pos = b.chain(k, links)
+        leaf, is_dir = _leaf(want, pos, nested_new if want == 'new' else nested)
+        expr = b.use(sym, pos, use, leaf, is_dir, n // 5)
+    ops = b.ops
     if site == 'file':
-        ops.append({'k': 'file', 'ph': ph, 'expr': expr, 'form': form.split(':')[1]})
+        ops.append({'k': 'file', 'ph': ph, 'expr': expr, 'form': sub})
     elif site == 'dir':
-        ops.append({'k': 'dir', 'ph': ph, 'expr': expr, 'form': form.split(':')[1]})
+        ops.append({'k': 'dir', 'ph': ph, 'expr': expr, 'form': sub})
     else:
-        ops.append({'k': 'copy', 'ph': ph, 'src': {'rel': 'home', 'lead': None, 'name': [['l', 'f1']], 'q': 0},
+        ops.append({'k': 'copy', 'ph': ph, 'src': {'rel': 'home', 'lead': None, 'name': [['l', src_leaf]], 'q': 0},
                     'dst': expr})
-    return {'conf': {'home': n % 3, 'act_home': (n // 3) % 3, 'inv': (n // 5) % 3, 'cinc': (n // 7) % 2},
-            'act': {'k': 'plain'}, 'ops': ops, 'irr': 'matrix'}
+    return {'conf': _conf(n), 'act': {'k': 'plain'}, 'ops': ops, 'irr': 'matrix'}
 
 
 # ---- enumerated matrix of the reading arguments ------------------------------------------------------------------
-READ_SITES = ['copy_src', 'cd', 'contents_of', 'dir_contents_of', 'existing', 'exe', 'exists', 'contents',
-              'dir-contents', 'act_exe', 'act_arg']
+READ_SITES = ['copy_src', 'cd', 'contents_of', 'dir_contents_of', 'existing', 'exe', 'stdin', 'pgm_stdin', 'exists',
+              'contents', 'dir-contents', 'act_exe', 'act_arg', 'act_file', 'act_interp']
+READ_WANT = {'cd': 'd', 'dir-contents': 'd', 'dir_contents_of': 'd', 'exe': 'x', 'act_exe': 'x', 'act_file': 'x',
+             'act_interp': 'x'}
+ACT_KIND = {'act_exe': 'exe', 'act_arg': 'arg', 'act_file': 'file', 'act_interp': 'interp'}
+
+
+def read_phases(site):
+    if site.startswith('act_'):
+        return ['act']
+    if site in ref.ASSERT_ONLY:
+        return ['assert']
+    if site == 'stdin':
+        return ['setup']
+    return PHASES
 
 
 def read_matrix(tier):
-    """every reading argument x phase x (no option | every option | symbol of every base relativity, referenced by
-    -rel SYM and by @[SYM]@/x, directly and through one more definition)"""
+    """every reading argument x phase x (no option | every option | symbol chain over every base relativity, every
+    combination of link kinds up to the depth bound, every way of using the last symbol)"""
     n = 0
     for site in READ_SITES:
-        phases = ['act'] if site.startswith('act_') else (['assert'] if site in ref.ASSERT_ONLY else PHASES)
-        for ph in phases:
+        for ph in read_phases(site):
             hows = [('default',)] + [('opt', k) for k in KINDS + ['here']]
-            for k in KINDS + ['abs', 'here']:
-                for depth in (1, 2):
-                    for use in ('rel', 'lead'):
-                        hows.append(('sym', k, depth, use))
+            hows += [('chain', k, links, use) for k, links, use in _hows(tier, n)]
             for how in hows:
-                if site == 'cd' and how[0] == 'sym' and how[1] in ('abs', 'here'):
-                    continue  # `cd` stays inside the sandbox (domain restriction)
                 if site == 'dir_contents_of' and how[0] == 'default':
                     continue  # default relativity undocumented
                 yield _read_case(site, ph, how, n)
@@ -937,42 +1113,30 @@ def read_matrix(tier):
 
 def _read_case(site, ph, how, n):
     real_site = 'existing' if site == 'act_arg' else site
-    leaf = _leaf_for(real_site, 0)
-    ops = []
-    def_ph = 'setup' if (ph == 'act' or n % 2) else ph
+    b = _Build(n, 'setup' if (ph == 'act' or n % 2) else ph)
+    want = READ_WANT.get(real_site, 'f')
+    if real_site in ('existing', 'exists', 'copy_src') and (n // 2) % 2:
+        want = 'd'
+    nested = (n // 3) % 2 == 1
     if how[0] == 'default':
-        expr = {'rel': None, 'lead': None, 'name': [['l', leaf]], 'q': 0}
+        leaf, is_dir = _leaf(want, 0, nested)
+        expr = {'rel': None, 'lead': None, 'name': b.frags(leaf, n, is_dir or '/' in leaf), 'q': 0}
     elif how[0] == 'opt':
-        expr = {'rel': how[1], 'lead': None, 'name': [['l', leaf]], 'q': n % 3}
+        leaf, is_dir = _leaf(want, 0, nested)
+        expr = {'rel': how[1], 'lead': None, 'name': b.frags(leaf, n, is_dir or '/' in leaf), 'q': n % 3}
+        if any(t == 's' for t, _ in expr['name']) and expr['q'] == 2:
+            expr['q'] = 0
     else:
-        _, k, depth, use = how
-        if k == 'abs':
-            e = {'rel': None, 'lead': None,
-                 'name': [['l', ['{HOME}/cs', '{ROOT}/absarea', '{HOME}/hd2', '{HOME}/cs/inc/deep'][n % 4]]], 'q': 0}
-        else:
-            e = {'rel': k, 'lead': None, 'name': [['l', '.']], 'q': 0}
-        ops.append({'k': 'def', 'ph': def_ph, 'name': 'P1', 'expr': e, 'inc': [1, 0, 2, 0][n % 4]})
-        sym = 'P1'
-        if depth == 2:
-            # one more definition: the leaf's directory goes into the chain where the leaf has one
-            comp = 'd1' if leaf == 'f1' else None
-            if comp:
-                leaf = 'f2'
-                e = [{'rel': 'sym:P1', 'lead': None, 'name': [['l', comp]], 'q': 0},
-                     {'rel': None, 'lead': 'P1', 'name': [['l', '/' + comp]], 'q': 0}][n % 2]
-            else:
-                e = {'rel': None, 'lead': 'P1', 'name': [], 'q': 0}
-            ops.append({'k': 'def', 'ph': def_ph, 'name': 'P2', 'expr': e, 'inc': 0})
-            sym = 'P2'
-        if use == 'rel':
-            expr = {'rel': 'sym:' + sym, 'lead': None, 'name': [['l', leaf]], 'q': 0}
-        else:
-            expr = {'rel': None, 'lead': sym, 'name': [['l', '/' + leaf]], 'q': n % 2}
+        _, k, links, use = how
+        sym, pos = b.chain(k, links)
+        leaf, is_dir = _leaf(want, pos, nested)
+        if real_site == 'copy_src' and not leaf:
+            leaf, is_dir = '../d2', True  # (SOURCE needs a base name)
+        expr = b.use(sym, pos, use, leaf, is_dir, n // 5)
+    ops = b.ops
     act = {'k': 'plain'}
-    if site == 'act_exe':
-        act = {'k': 'exe', 'expr': expr}
-    elif site == 'act_arg':
-        act = {'k': 'arg', 'expr': expr}
+    if site in ACT_KIND:
+        act = {'k': ACT_KIND[site], 'expr': expr}
     elif site == 'copy_src':
         ops.append({'k': 'copy', 'ph': ph, 'src': expr,
                     'dst': {'rel': 'tmp', 'lead': None, 'name': [['l', 'o/c']], 'q': 0}})
@@ -981,7 +1145,117 @@ def _read_case(site, ph, how, n):
     else:
         op = {'k': 'read', 'ph': ph, 'site': site, 'expr': expr}
         if site == 'existing':
-            op['etype'] = ['p', 'f'][n % 2]
+            op['etype'] = ['p', 'd' if want == 'd' else 'f'][n % 2]
         ops.append(op)
-    return {'conf': {'home': n % 3, 'act_home': (n // 3) % 3, 'inv': (n // 5) % 3, 'cinc': (n // 7) % 2},
-            'act': act, 'ops': ops, 'irr': 'read-matrix'}
+        if site == 'stdin':
+            act = {'k': 'cat'}
+    return {'conf': _conf(n), 'act': act, 'ops': ops, 'irr': 'read-matrix'}
+
+
+# ---- -rel-cd is resolved at the time of use: definition, then cd, then use ---------------------------------------
+CD_MOVES = [
+    [{'rel': 'tmp', 'lead': None, 'name': [['l', '.']], 'q': 0}],
+    [{'rel': None, 'lead': None, 'name': [['l', 'w1']], 'q': 0}],
+    [{'rel': 'tmp', 'lead': None, 'name': [['l', 'w2']], 'q': 0}],
+    [{'rel': 'cd', 'lead': None, 'name': [['l', 'w1']], 'q': 0}, {'rel': None, 'lead': None, 'name': [['l', 'w3']], 'q': 0}],
+    [{'rel': 'act', 'lead': None, 'name': [['l', 'w1/w3']], 'q': 0}, {'rel': 'cd', 'lead': None, 'name': [['l', '..']], 'q': 0}],
+]
+CD_CHAINS = [[], ['rel'], ['lead'], ['plain'], ['rel', 'lead'], ['plain', 'rel']]
+
+
+def cd_matrix(tier):
+    """every argument kind x phase: a path symbol relative to the current directory (-rel-cd, or the default
+    relativity of def) is defined (alone or as the base of a chain), the current directory is changed (once or
+    twice, in the same or in a later phase), then the symbol is used; also the plain forms `-rel-cd X` / default
+    relativity after cd"""
+    n = 0
+    sites = [('dest', f) for f in DEST_FORMS] + [('read', s) for s in READ_SITES]
+    for kind, site in sites:
+        if tier == 'quick' and site in ('file:empty', 'dir:with'):
+            continue
+        phases = PHASES if kind == 'dest' else read_phases(site)
+        for ph in phases:
+            for ci, links in enumerate(CD_CHAINS):
+                if tier == 'quick' and ci >= 4 and (n + ci) % 2:
+                    continue
+                for use in (['rel', 'lead', 'plain', 'opt'] if not links else ['rel', 'lead']):
+                    yield _cd_case(kind, site, ph, links, use, n)
+                    n += 1
+    for c in _cd_copy_cases(n):
+        yield c
+
+
+def _cd_copy_cases(n):
+    """`copy SOURCE` without DESTINATION copies into the directory that is current when the instruction is executed"""
+    for ph in PHASES:
+        for mi, moves in enumerate(CD_MOVES):
+            for src in ('g1', 'gd'):
+                cd_ph = 'setup' if (n % 2) else ph
+                ops = [{'k': 'cd', 'ph': cd_ph, 'expr': e} for e in moves]
+                rel = [None, 'home', 'act-home'][n % 3]
+                ops.append({'k': 'copy', 'ph': ph, 'dst': None,
+                            'src': {'rel': rel, 'lead': None, 'name': [['l', src]], 'q': 0}})
+                yield {'conf': _conf(n), 'act': {'k': 'plain'}, 'ops': ops, 'irr': 'cd-matrix'}
+                n += 1
+
+
+def _cd_case(kind, site, ph, links, use, n):
+    real_site = 'existing' if site == 'act_arg' else site
+    use_ph = 'setup' if ph == 'act' else ph
+    def_ph, cd_ph = [('setup', 'setup'), ('setup', use_ph), (use_ph, use_ph)][n % 3]
+    b = _Build(n, def_ph)
+    if kind == 'dest':
+        want = {'file:append': 'f', 'dir:add': 'd'}.get(site, 'new')
+    else:
+        want = READ_WANT.get(real_site, 'f')
+    # base: -rel-cd . | default relativity of def (= current directory)
+    e = [{'rel': 'cd', 'lead': None, 'name': [['l', '.']], 'q': 0},
+         {'rel': None, 'lead': None, 'name': [['l', '.']], 'q': 0}][(n // 2) % 2]
+    sym = b.newpath(e, inc=[0, 1, 0, 2][n % 4])
+    pos = 0
+    for j, link in enumerate(links):
+        if link == 'plain':
+            e = {'rel': None, 'lead': sym, 'name': [], 'q': 0}
+        else:
+            e = b.expr(sym, link, COMPS[pos], n + j, True)
+            pos += 1
+        sym = b.newpath(e, inc=0)
+    ops = b.ops
+    for e in CD_MOVES[n % len(CD_MOVES)]:
+        ops.append({'k': 'cd', 'ph': cd_ph, 'expr': e})
+    b.def_ph = cd_ph  # (string symbols needed by the use are defined after the cd)
+    leaf, is_dir = _leaf(want, pos, (n // 3) % 2 == 1 and not site.startswith('file:'))
+    if real_site == 'copy_src' and not leaf:
+        leaf, is_dir = '../d2', True
+    if use == 'opt':
+        # no symbol: `-rel-cd LEAF`, or LEAF alone where the default relativity is the current directory
+        default_cd = kind == 'dest' or SITES[real_site]['default'] == 'cd'
+        expr = {'rel': None if (default_cd and n % 2) else 'cd', 'lead': None,
+                'name': b.frags(leaf or '.', n, is_dir or '/' in leaf), 'q': 0}
+    else:
+        expr = b.use(sym, pos, use, leaf, is_dir, n // 5)
+    act = {'k': 'plain'}
+    if kind == 'dest':
+        s, sub = (site.split(':') + [None])[:2]
+        if s == 'file':
+            ops.append({'k': 'file', 'ph': use_ph, 'expr': expr, 'form': sub})
+        elif s == 'dir':
+            ops.append({'k': 'dir', 'ph': use_ph, 'expr': expr, 'form': sub})
+        else:
+            ops.append({'k': 'copy', 'ph': use_ph, 'src': {'rel': 'home', 'lead': None, 'name': [['l', 'f1']], 'q': 0},
+                        'dst': expr})
+    elif site in ACT_KIND:
+        act = {'k': ACT_KIND[site], 'expr': expr}
+    elif site == 'copy_src':
+        ops.append({'k': 'copy', 'ph': use_ph, 'src': expr,
+                    'dst': {'rel': 'tmp', 'lead': None, 'name': [['l', 'o/c']], 'q': 0}})
+    elif site == 'cd':
+        ops.append({'k': 'cd', 'ph': use_ph, 'expr': expr})
+    else:
+        op = {'k': 'read', 'ph': use_ph, 'site': site, 'expr': expr}
+        if site == 'existing':
+            op['etype'] = ['p', 'd' if want == 'd' else 'f'][n % 2]
+        ops.append(op)
+        if site == 'stdin':
+            act = {'k': 'cat'}
+    return {'conf': _conf(n), 'act': act, 'ops': ops, 'irr': 'cd-matrix'}
